@@ -25,7 +25,15 @@ fn operands<F: Flt>(l: &Layout, reals: &[f64], salt: usize) -> Vec<Parts<F>> {
             // the same with every other derivative entry exactly zero (unit-seed like patterns)
             if k == 0 {
                 let sparse: Vec<F> = vals.iter().enumerate().map(|(i, v)| if i > 0 && (i + pat) % 2 == 0 { F::zero() } else { *v }).collect();
-                out.push(Parts { vals: sparse, present });
+                out.push(Parts { vals: sparse, present: present.clone() });
+            }
+            // exactly one derivative entry zero (e.g. a vanishing first derivative next to a non-zero
+            // second one), all parts present
+            if k == 1 && pat == 0 {
+                for z in 1..l.nslots().min(7) {
+                    let one_zero: Vec<F> = vals.iter().enumerate().map(|(i, v)| if i == z { F::zero() } else { *v }).collect();
+                    out.push(Parts { vals: one_zero, present: present.clone() });
+                }
             }
         }
     }
@@ -102,6 +110,21 @@ macro_rules! field_checks {
                     let xf = re as F;
                     $st.evaluations += 3;
                     $st.state(hash64(&(tn.as_str(), "predicates", px.bits(), px.present.clone())));
+                    // the polar / exponential decompositions at zero and at non-finite real parts: the
+                    // sign convention of the float methods (to_exp(+-0) = (0, 1), signum(+-0) = +-1)
+                    // (-0.0 and non-finite real parts are left out: there the PROVIDED methods of nalgebra, which the dual types
+                    // inherit, and the overrides of f32 / f64 differ by design: signum(-0.0) = 1 vs -1)
+                    if dv == 0.75 && re.is_finite() && !(re == 0.0 && re.is_sign_negative()) {
+                        let (m, sg) = ComplexField::to_exp(x.clone());
+                        let (mf, sf) = ComplexField::to_exp(xf);
+                        let sn = ComplexField::signum(x.clone()).re();
+                        let snf = ComplexField::signum(xf);
+                        $st.evaluations += 3;
+                        let same = |a: F, b: F| a.to_bits() == b.to_bits() || (a.is_nan() && b.is_nan());
+                        if !same(m.re(), mf) || !same(sg.re(), sf) || !same(sn, snf) {
+                            $st.violation(Violation { sig: format!("method to_exp/signum {tn} special values"), case: json!({"type": tn, "x": parts_to_json(&px)}), what: format!("to_exp({re:e}) = ({:e}, {:e}), signum = {:e}; the float methods give ({:e}, {:e}) and {:e}", m.re() as f64, sg.re() as f64, sn as f64, mf as f64, sf as f64, snf as f64) });
+                        }
+                    }
                     if ComplexField::is_finite(&x) != xf.is_finite() || RealField::is_sign_positive(&x) != xf.is_sign_positive() || RealField::is_sign_negative(&x) != xf.is_sign_negative() {
                         $st.violation(Violation { sig: format!("method predicates {tn} special values"), case: json!({"type": tn, "x": parts_to_json(&px)}), what: format!("is_finite / is_sign_* not decided by the real part {re:e} (derivative parts {dv:e})") });
                     }
